@@ -222,12 +222,19 @@ PROPS = {
                         "reduce_layout (wiring-time tree for fixed TSL) is not under contract; exercised by the bounded enumeration only"],
     },
     "C05": {
-        "modules": ["contracts.c05_collections", "contracts.c05_window"],
+        "modules": ["contracts.c05_collections", "contracts.c05_tsd", "contracts.c05_keystore", "contracts.c05_window"],
         "level": "proof",
         "design_ref": "DESIGN.md section 8, C05",
         "trusted_base": [
-            "contract of KeySlotStore (insert returns the live slot / resurrects the key's pending slot / constructs a free slot; "
-            "find_slot; remove_slot makes a live slot pending-erase; erase_pending frees all pending slots) -- assumed, not yet proved on key_slot_store.h",
+            "contract of KeySlotStore as used by the set / dictionary kernels: now PROVED on key_slot_store.h (c05_keystore: insert x3, "
+            "remove_slot, erase_pending, find_slot, reserve_to under the representation invariant KInv; lemma: proved post => the three "
+            "outcomes the callers assume).  What that layer trusts in turn: StableSlotStore<ConstructedAndLive> state transitions "
+            "(mark_staged/live/pending_erase/free: one-line tag or bitmap updates in impl/stable_slot_store_impl.h), the ankerl hash "
+            "index (find(k) returns a member slot with an equal key or end(); insert/reserve may throw), StoragePlan / ValueOps key "
+            "construction (may throw; writes the payload), slot observers (do not re-enter the store, do not throw)",
+            "dictionary kernels: the element ops table (has_current_value_impl / tracking_impl) reads the child's state; "
+            "KeyMirroredValueSlotStore gives a newly constructed slot a fresh value-less child and keeps the child of a resurrected "
+            "slot; stop_owned_ts_data_tree keeps the child's value and modification state; invalidate_owned_ts_data_tree resets them",
             "sul::dynamic_bitset model (test/set/reset/resize/size)",
             "keys are opaque ids with equality (so the result is generic in the element type)",
             "window ring buffer: value_slot/time_slot/time_at_physical/element_at/copy_construct_slot/copy_assign_*_slot/clear/"
@@ -235,9 +242,12 @@ PROPS = {
             "byte pointers are (buffer, slot) pairs, any other pointer arithmetic is a gap",
         ],
         "assumptions": ["element and time copy/move construction, assignment and destruction do not throw and copy the element identity "
-                        "(window kernels); operator new does not fail"],
-        "not_decided": ["TSD published/modified bits, TSL/TSB delta bits (not yet under contract)",
-                        
+                        "(window kernels); operator new does not fail (except where the key store kernels model it: index growth)",
+                        "KeySlotStore: size <= capacity (pigeonhole consequence of the live-slot bijection, not derivable by the solver; "
+                        "used only for the no-overflow side conditions of acquire_free_slot)"],
+        "not_decided": ["TSL/TSB delta bits (not yet under contract; bounded native stand-in only)",
+                        "that a dictionary child reports every gain / loss of its value to record_child_modified (the ops-table "
+                        "notification path; the kernel proves what the storage does with each report)",
                         "nested TSD-of-TSD coherence", "stable_slot_store growth (slot identity)"],
     },
     "C19": {
